@@ -1455,7 +1455,9 @@ func (self *Analyzer) matchExpression(node pAst.MatchExpression) ast.AnalyzedMat
 		containsDefault := false
 		for _, lit := range arm.Literals {
 			if !lit.IsLiteral() {
-				defaultArmSpan = &arm.Range
+				// a copy: `arm` is the loop variable, it names another arm when the span is used
+				armRange := arm.Range
+				defaultArmSpan = &armRange
 				// The action was analyzed above: analyzing it again would report its diagnostics twice
 				// and doubles the work with every nesting level of default arms.
 				defaultArm = &action
